@@ -212,6 +212,10 @@ class VConn:
     def write(self, data):
         self.tp._write_plain(bytes(data))
 
+    def write_raw(self, data):
+        """bytes put on the wire as they are, not as TLS records (a server or middlebox that answers in plaintext)."""
+        self.raw.write(bytes(data))
+
     def eof(self):
         self.tp._finish("eof")
 
